@@ -237,15 +237,15 @@ Fixpoint prof_lines (fuel : nat) (dir : bytes) : option (list bytes) :=
   match fuel with
   | O => None
   | S f =>
-    match realpath fs dir with
-    | None => None
-    | Some q =>
-      if negb (is_dir fs q) then None
-      else
-        let own := match packages_of fs q with Some ls => ls | None => [] end in
-        match parent_of fs q with
-        | None => Some own
-        | Some ps =>
+    if negb (is_dir fs dir) then None
+    else
+      let own := match packages_of fs dir with Some ls => ls | None => [] end in
+      match parent_of fs dir with
+      | None => Some own
+      | Some ps =>
+        match realpath fs dir with          (* parent paths are relative to the real directory *)
+        | None => None
+        | Some q =>
           match (fix go (ps : list bytes) : option (list bytes) :=
                    match ps with
                    | [] => Some []
@@ -259,7 +259,7 @@ Fixpoint prof_lines (fuel : nat) (dir : bytes) : option (list bytes) :=
           | None => None
           end
         end
-    end
+      end
   end.
 Definition stack_line (acc : list bytes) (l : bytes) : list bytes :=
   match l with
